@@ -312,28 +312,40 @@ func singles(c *explore.Ctx) {
 		c.Inner(256)
 		c.Outcome("bytes")
 	} else {
-		// negative runes are not code points; the statement does not define the predicates on them, so they are not fed (DESIGN.md §10)
-		runes := []rune{0x7ff, 0x800, 0xffff, 0x10000, 0x10ffff, 0x110000, 1 << 30}
-		for r := rune(0); r <= 0x100; r++ {
-			runes = append(runes, r)
-		}
-		for _, r := range runes {
+		// Every rune 0..0x110000 plus boundary values. Negative runes are not
+		// code points and "below 0x80" does not settle ValidRune on them, so
+		// they are fed to ValidPrintRune only (0x20..0x7E is unambiguous).
+		var n int64
+		check := func(r rune) {
 			g1, g2 := ascii.ValidRune(r), ascii.ValidPrintRune(r)
-			if g1 != (r >= 0 && r < 0x80) {
+			if r >= 0 && g1 != (r < 0x80) {
 				c.Fail("ValidRune", "ValidRune(%#x)=%v", r, g1)
 			}
 			if g2 != (r >= 0x20 && r <= 0x7e) {
 				c.Fail("ValidPrintRune", "ValidPrintRune(%#x)=%v", r, g2)
 			}
 			var bits uint64
-			if g1 {
+			if g1 && r >= 0 {
 				bits |= 1
 			}
 			if g2 {
 				bits |= 2
 			}
 			digest += mix(uint64(uint32(r)), bits)
+			n++
 		}
+		for r := rune(0); r <= 0x110000; r++ {
+			check(r)
+		}
+		for sh := 0; sh < 31; sh++ {
+			for d := rune(-0x100); d <= 0x100; d++ {
+				check(rune(1)<<sh + d)
+				check(-(rune(1) << sh) + d)
+			}
+		}
+		check(-1 << 31)
+		check(1<<31 - 1)
+		runes := make([]struct{}, n)
 		c.Inner(int64(len(runes)))
 		c.Outcome("runes")
 	}
